@@ -2,19 +2,21 @@
    and returns the indices of the cases whose observable result differs. *)
 From MpV Require Export Model.EagerBatcher.
 
-(* batch size, wait, arrivals, observed (finished?, [(items, emit time)]) *)
-Definition case := (nat * Z * list (Z * option Z) * (bool * list (list Z * Z)))%type.
+(* batch size, wait, arrivals, observed (finished?, [(items, emit time, clock when the batch's
+   first item left the queue)]) *)
+Definition case := (nat * Z * list (Z * option Z) * (bool * list (list Z * Z * Z)))%type.
 
-Definition model_obs (bs : nat) (w : Z) (arr : list (Z * option Z)) : bool * list (list Z * Z) :=
+Definition model_obs (bs : nat) (w : Z) (arr : list (Z * option Z)) : bool * list (list Z * Z * Z) :=
   let '(stt, out) := run {| bsize := bs; wait := w |}
                          (map (fun p => {| atime := fst p; amsg := snd p |}) arr) in
   (match stt with Finished => true | Blocked => false end,
-   map (fun b => (items b, etime b)) out).
+   map (fun b => (items b, etime b, first_t b)) out).
 
-Definition eq_batch (a b : list Z * Z) : bool :=
-  (if list_eq_dec Z.eq_dec (fst a) (fst b) then true else false) && (snd a =? snd b).
+Definition eq_batch (a b : list Z * Z * Z) : bool :=
+  (if list_eq_dec Z.eq_dec (fst (fst a)) (fst (fst b)) then true else false)
+  && (snd (fst a) =? snd (fst b)) && (snd a =? snd b).
 
-Fixpoint eq_batches (a b : list (list Z * Z)) : bool :=
+Fixpoint eq_batches (a b : list (list Z * Z * Z)) : bool :=
   match a, b with
   | [], [] => true
   | x :: a', y :: b' => eq_batch x y && eq_batches a' b'
